@@ -154,6 +154,36 @@ deriving Repr
 def Sorter.addAll (s : Sorter) (ops : List AddOp) : Sorter :=
   ops.foldl (fun s o => s.add o.name o.after o.before) s
 
+/-! ### Histories on ONE sorter: `add`, the public `remove`, and `sorted()` asked at any point -/
+
+/-- one call on a long-lived sorter -/
+inductive HOp where
+  | add (o : AddOp)
+  | remove (name : Nat)
+  | query
+deriving Repr
+
+/-- the public `TopologicalSorter.remove(name)`: for a name that is not there `self.names.remove(name)` raises
+`ValueError` before anything is touched (state unchanged, `false`) -/
+def Sorter.removeOp (s : Sorter) (name : Nat) : Sorter × Bool :=
+  if s.names.contains name then (s.remove name, true) else (s, false)
+
+def HOp.isQuery : HOp → Bool
+  | .query => true
+  | _ => false
+
+/-- effect of one call on the state; `sorted()` only reads -/
+def HOp.step (s : Sorter) : HOp → Sorter
+  | .add o => s.add o.name o.after o.before
+  | .remove n => (s.removeOp n).1
+  | .query => s
+
+/-- the answers of the `sorted()` calls of a history, in order -/
+def runHistory (s : Sorter) : List HOp → List SortResult
+  | [] => []
+  | .query :: rest => s.sorted :: runHistory s rest
+  | op :: rest => runHistory (op.step s) rest
+
 /-! ### Wrapping order (`Tweens.__call__`, `_apply_view_derivers`) -/
 
 /-- events observed when the composed handler is called -/
